@@ -396,6 +396,78 @@ func c11(r *Run) {
 		r.neverReach("C11.R6:close-stops-dispatch", "after the close message no further event of the batch is dispatched", disp, nil, starts, isIns(getCall), nil, nil, nil, "no further fetch")
 		// Wait returns when the handler says closed
 		waitFn := w.MustFn("(*defaultPoll).Wait")
+		// between the kernel filling the event array and its dispatch nothing replaces the array: growing it (Reset) there
+		// would dispatch a fresh, zeroed array and drop the batch - for edge-triggered registrations for good
+		if w.Cfg.Name != "darwin" && w.Cfg.Name != "freebsd" {
+			isEpollWait := func(i ssa.Instruction) bool { f := calleeOf(i); return f != nil && f.Name() == "EpollWait" }
+			isDispatch := func(i ssa.Instruction) bool {
+				c, ok := i.(*ssa.Call)
+				return ok && strings.HasSuffix(pathOf(c.Call.Value), ".Handler")
+			}
+			replaces := func(i ssa.Instruction) bool {
+				if c, ok := i.(*ssa.Call); ok && strings.HasSuffix(pathOf(c.Call.Value), ".Reset") {
+					return true
+				}
+				return isStoreToField(i, "pollArgs", "events") || isStoreToField(i, "defaultPoll", "events")
+			}
+			waits := findIns(waitFn, isEpollWait)
+			if len(waits) == 0 || len(findIns(waitFn, isDispatch)) == 0 {
+				r.absentf(" C11: Wait has no EpollWait / Handler dispatch")
+			}
+			{
+				stop1 := func(i ssa.Instruction) bool { return isEpollWait(i) || isDispatch(i) }
+				s1 := &Search{Fn: waitFn, Stop: stop1}
+				var wit *Witness
+				for _, rp := range s1.Reachable(startsAfter(waits), replaces) {
+					s2 := &Search{Fn: waitFn, Stop: isEpollWait}
+					if wt := s2.Find([]Start{After(rp)}, isDispatch, false); wt != nil && wit == nil {
+						wit = wt
+					}
+					r.Visited += s2.Visited
+				}
+				r.Visited += s1.Visited
+				r.obW("C11.R6:batch-dispatched-from-the-array-that-was-filled", "between EpollWait filling the event array and the Handler dispatch of that batch the array is not replaced (the grow-on-full Reset belongs before the next wait): a batch dispatched from a fresh array is lost, and edge-triggered events are not reported again", waitFn, nil, wit, "no Reset / events store between an EpollWait and the dispatch of its batch")
+			}
+			// the interest masks: whatever else a connection waits for, readable and hang-up stay armed
+			ctl := w.MustFn("(*defaultPoll).Control")
+			bit := func(name string) int64 {
+				c, ok := w.PkgConst("syscall", name)
+				if !ok {
+					broken("ANCHOR-LOST syscall.%s", name)
+				}
+				return c
+			}
+			in, out, rdhup := bit("EPOLLIN"), bit("EPOLLOUT"), bit("EPOLLRDHUP")
+			type want struct {
+				ev        string
+				must, not int64
+			}
+			for _, wv := range []want{{"PollReadable", in | rdhup, out}, {"PollR2RW", in | out | rdhup, 0}, {"PollRW2R", in | rdhup, out}, {"PollWritable", out, 0}} {
+				k := w.ConstInt(wv.ev)
+				evIs := func(v ssa.Value) (bool, bool) {
+					b, ok := v.(*ssa.BinOp)
+					if !ok || b.Op != token.EQL {
+						return false, false
+					}
+					if _, isP := b.X.(*ssa.Parameter); isP && isConstEq(k)(b.Y) {
+						return true, true
+					}
+					return false, false
+				}
+				starts := edgesEstablishing(ctl, evIs)
+				var mask int64 = -1
+				var at ssa.Instruction
+				ss := &Search{Fn: ctl}
+				for _, st := range ss.Reachable(starts, func(i ssa.Instruction) bool { return isStoreToField(i, "epollevent", "events") }) {
+					if c, ok := constInt(st.(*ssa.Store).Val); ok && mask == -1 {
+						mask, at = c, st
+					}
+				}
+				r.Visited += ss.Visited
+				okm := mask != -1 && mask&wv.must == wv.must && mask&wv.not == 0
+				r.ob("C11.R6:interest-mask:"+wv.ev, "the epoll interest installed for "+wv.ev+" contains the bits that event needs and not the ones it must not have: a connection waiting for writability still gets its readable / hang-up events (else peer data followed by a close is reported as a bare hang-up and the bytes are never read)", ctl, at, okm, fmt.Sprintf("mask %#x", mask), true)
+			}
+		}
 		hTrue := func(v ssa.Value) (bool, bool) {
 			c, ok := v.(*ssa.Call)
 			if !ok {
